@@ -360,6 +360,13 @@ def check_are_named(repo: Repo, res: Result) -> FuncInfo | None:
             cs = [c for c in cs if c.cls is not None and repo.is_subclass(rule, c.cls.fq) or (c.cls is not None and repo.is_subclass(c.cls, rule.fq))]
             if cs and how == "repo":
                 handoffs.append((n, cs[0]))
+            elif not cs:
+                # the receiver's type could not be resolved (`rule = self._rule` whose type depends on this very call): a method
+                # that exists on Rule, called on something that is not provably another class, is the hand-off
+                cand = repo.lookup_method(rule, n.func.attr)
+                recv = single_value(view, n.func.value)
+                if cand is not None and not cand.is_property and not _is_self_like(recv) and _types_rule(repo, T, view, n.func.value, rule) is not False and (_types_rule(repo, T, view, recv, rule) is not False):
+                    handoffs.append((n, cand))
     if len(handoffs) != 1:
         if not handoffs:
             res.add("C05.R1", construct, False, "LayerRule.are_named hands no module specifications to the wrapped rule", where(an, an.node), kind="flow")
